@@ -138,6 +138,31 @@ func needsFreshStorage(kind reflect.Kind) bool {
 	return false
 }
 
+// hashableKey reports whether a value held by an interface{} key can be hashed by the runtime
+// (slices, maps and functions, also nested in arrays and structs, cannot).
+func hashableKey(key interface{}) bool {
+	if key == nil {
+		return true
+	}
+	return hashableType(reflect.TypeOf(key))
+}
+
+func hashableType(t reflect.Type) bool {
+	switch t.Kind() {
+	case reflect.Slice, reflect.Map, reflect.Func:
+		return false
+	case reflect.Array:
+		return hashableType(t.Elem())
+	case reflect.Struct:
+		for i := 0; i < t.NumField(); i++ {
+			if !hashableType(t.Field(i).Type) {
+				return false
+			}
+		}
+	}
+	return true
+}
+
 func (valdec mapDecoder) decodeMap(dec *Decoder, p interface{}) {
 	mp := reflect2.PtrOf(p)
 	count := dec.ReadInt()
@@ -160,6 +185,12 @@ func (valdec mapDecoder) decodeMap(dec *Decoder, p interface{}) {
 		}
 		valdec.decodeKey(dec, kt, kp)
 		valdec.decodeValue(dec, vt, vp)
+		if valdec.kt.Kind() == reflect.Interface && !hashableKey(*(*interface{})(kp)) {
+			if dec.Error == nil {
+				dec.Error = DecodeError("hprose/io: unhashable map key of type " + reflect.TypeOf(*(*interface{})(kp)).String())
+			}
+			continue
+		}
 		valdec.t.UnsafeSetIndex(mp, kp, vp)
 	}
 	dec.Skip()
@@ -176,20 +207,27 @@ func (valdec mapDecoder) decodeObjectAsMap(dec *Decoder, p interface{}, tag byte
 	count := len(structInfo.names)
 	valdec.t.UnsafeSet(mp, valdec.t.UnsafeMakeMap(count))
 	dec.AddReference(p)
-	if fields := structInfo.fields; fields != nil {
-		for _, name := range structInfo.names {
-			field := fields[name]
+	// the key must have the map's key type: for map[interface{}]... the name is boxed (through the
+	// safe reflect API, so that the boxed copy is owned by the map)
+	setIndex := func(name string, v *interface{}) {
+		if valdec.kt.Kind() == reflect.Interface {
+			reflect.ValueOf(p).Elem().SetMapIndex(reflect.ValueOf(name), reflect.ValueOf(v).Elem())
+		} else {
+			valdec.t.UnsafeSetIndex(mp, reflect2.PtrOf(&name), reflect2.PtrOf(v))
+		}
+	}
+	fields := structInfo.fields
+	for _, name := range structInfo.names {
+		var v interface{}
+		if field, ok := fields[name]; ok {
 			vp := field.Type.UnsafeNew()
 			field.Decode(dec, field.Type.Type1(), vp)
-			v := field.Type.UnsafeIndirect(vp)
-			valdec.t.UnsafeSetIndex(mp, reflect2.PtrOf(name), reflect2.PtrOf(&v))
-		}
-	} else {
-		for _, name := range structInfo.names {
-			var v interface{}
+			v = field.Type.UnsafeIndirect(vp)
+		} else {
+			// a class field the registered Go type does not have (or no registered type at all)
 			dec.decodeInterface(dec.NextByte(), &v)
-			valdec.t.UnsafeSetIndex(mp, reflect2.PtrOf(name), reflect2.PtrOf(&v))
 		}
+		setIndex(name, &v)
 	}
 	dec.Skip()
 }
